@@ -13,9 +13,9 @@ theorem map_zero_mul (xs : List ℝ) : xs.map (fun v => (0 : ℝ) * v) = zerosL 
     obtain ⟨a, _, rfl⟩ := hb
     ring
 
-theorem take_roll_length (trace : List ℝ) (s : ℤ) :
-    ((roll (trace ++ zerosL trace.length) s).take trace.length).length = trace.length := by
-  rw [List.length_take, roll_length, List.length_append, zerosL_length]
+theorem take_askRoll_length (trace : List ℝ) (s : ℤ) :
+    ((askRoll (trace ++ zerosL trace.length) s).take trace.length).length = trace.length := by
+  rw [List.length_take, askRoll_length, List.length_append, zerosL_length]
   omega
 
 theorem tail_length (c : Prop) [Decidable c] (p : List ℝ) (e : ℝ) :
@@ -27,11 +27,11 @@ theorem avzPlace_length (N : ℕ) (trace : List ℝ) (x : ℝ) :
   unfold avzPlace
   simp only []
   have hp : (if (Rfloor x - ((trace.length / 2 : ℕ) : ℤ)).natAbs > trace.length then zerosL trace.length
-      else (roll (trace ++ zerosL trace.length) (Rfloor x - ((trace.length / 2 : ℕ) : ℤ))).take trace.length).length
+      else (askRoll (trace ++ zerosL trace.length) (Rfloor x - ((trace.length / 2 : ℕ) : ℤ))).take trace.length).length
       = trace.length := by
     split_ifs
     · exact zerosL_length _
-    · exact take_roll_length _ _
+    · exact take_askRoll_length _ _
   rw [tail_length, hp]
 
 theorem avzValues_length (times : List ℝ) (E em had psi dist n t0 : ℝ) :
@@ -47,13 +47,13 @@ theorem getD_tail (c : Prop) [Decidable c] (p : List ℝ) (e : ℝ) (i : ℕ) (h
   · simp [List.getD_eq_getElem?_getD, List.getElem?_append_left h]
   · rfl
 
-theorem getD_take_roll (trace : List ℝ) (s : ℤ) (i : ℕ) (h : i < trace.length) :
-    ((roll (trace ++ zerosL trace.length) s).take trace.length).getD i 0
+theorem getD_take_askRoll (trace : List ℝ) (s : ℤ) (i : ℕ) (h : i < trace.length) :
+    ((askRoll (trace ++ zerosL trace.length) s).take trace.length).getD i 0
       = (trace ++ zerosL trace.length).getD ((((i : ℕ) : ℤ) - s) % ((2 * trace.length : ℕ) : ℤ)).toNat 0 := by
   have hlen : (trace ++ zerosL trace.length).length = 2 * trace.length := by
     rw [List.length_append, zerosL_length]; omega
   have h2 : i < (trace ++ zerosL trace.length).length := by omega
-  rw [← hlen, ← roll_getD _ _ _ h2]
+  rw [← hlen, ← askRoll_getD _ _ _ h2]
   simp [List.getD_eq_getElem?_getD, h]
 
 /-- roll/crop lemma: moving the placement by `m` whole samples moves every sample that stays inside -/
@@ -65,9 +65,9 @@ theorem avzPlace_move (N : ℕ) (trace : List ℝ) (x : ℝ) (m i : ℕ) (hmi : 
   simp only []
   rw [if_neg h1, if_neg h2]
   have hi' : i - m < trace.length := by omega
-  rw [getD_tail _ _ _ _ (by rw [take_roll_length]; exact hi),
-      getD_tail _ _ _ _ (by rw [take_roll_length]; exact hi'),
-      getD_take_roll _ _ _ hi, getD_take_roll _ _ _ hi']
+  rw [getD_tail _ _ _ _ (by rw [take_askRoll_length]; exact hi),
+      getD_tail _ _ _ _ (by rw [take_askRoll_length]; exact hi'),
+      getD_take_askRoll _ _ _ hi, getD_take_askRoll _ _ _ hi']
   congr 2
   have : Rfloor (x + (m : ℝ)) = Rfloor x + (m : ℤ) := by
     simp only [Rfloor]
@@ -113,8 +113,8 @@ theorem avz_zero_energy (times : List ℝ) (E em had psi dist n t0 : ℝ) (h1 : 
   have hl := avzValues_length times E em had psi dist n t0
   unfold avzValues at hl ⊢
   simp only [] at hl ⊢
-  have hs : avzSpectrum (times.length / 2 + 1) (rfftfreq times.length (gridDt times)) E em had dist (Rabs psi) (thetaC n)
-      = fun k => 0 * avzSpectrum (times.length / 2 + 1) (rfftfreq times.length (gridDt times)) E em had dist (Rabs psi) (thetaC n) k := by
+  have hs : avzSpectrum (times.length / 2 + 1) (askRfftfreq times.length (gridDt times)) E em had dist (Rabs psi) (thetaC n)
+      = fun k => 0 * avzSpectrum (times.length / 2 + 1) (askRfftfreq times.length (gridDt times)) E em had dist (Rabs psi) (thetaC n) k := by
     funext k
     rw [avzSpectrum_zero _ _ _ _ _ _ _ _ _ h1 h2]; ring
   rw [hs, avzCentred_scale, avzPlace_scale, map_zero_mul]
